@@ -77,7 +77,9 @@ class BatchDocumentConverter(object):
                         file=in_file, url_info=url_record.url_info):
                     link_type = 'css'
                 else:
-                    link_type = None
+                    # Neither HTML nor CSS (whatever the server sent):
+                    # there are no links to convert.
+                    return
 
         _logger.info(__(
             _('Converting links in file ‘{filename}’ (type={type}).'),
